@@ -846,7 +846,7 @@ def gen_cases(rng, tier, est):
                 for extra in _exh_args(est, m):
                     yield _mk(est, rng, pl, phased, n, m, geno=geno, **extra)
     # ---- B: seeded random small cases
-    N = 260 if quick else 4000
+    N = 260 if quick else 10000
     for _ in range(N):
         pl = rng.choice([1, 2, 2])
         phased = rng.random() < 0.5
@@ -922,7 +922,7 @@ def gen_direct(rng, tier):
     for M in fixed:
         for k in klasses:
             yield dict(est="base", klass=k, n=len(M), m=1, kind="fixed", matrix=M, mseed=0, labels="taxa")
-    N = 500 if quick else 8000
+    N = 500 if quick else 20000
     for _ in range(N):
         n = rng.choice([1, 2, 2, 3, 3, 4, 5, 6, 8])
         yield dict(est="base", klass=rng.choice(klasses), n=n, m=1,
@@ -970,39 +970,40 @@ _RULE = ("exhaustive genotype enumeration at tiny shapes (all allele-count / all
 
 
 @unit(P, "ring[molecular coancestry vs twice-average-IBS definition]", "R", bounded=True,
-      note="bounded: exhaustive n*m<=4 (thorough <=8 bits), random n<=7 m<=13, m in 127..300 (thorough ..33000), "
-           "n up to 130 (thorough 260); seeded")
+      note="bounded: exhaustive genotypes for n*m<=4 (thorough n*m<=6 / 8 allele bits), 260 (thorough 10000) random cases "
+           "n<=7 m<=13, m in 127..300 (thorough ..33000), n up to 130 (thorough 260); seeded")
 def u_ring_molecular(ctx):
     ctx.rule = _RULE
     _drive(ctx, gen_cases(ctx.rng, ctx.tier, "molecular"), "molecular")
 
 
 @unit(P, "ring[VanRaden matrix vs published formula]", "R", bounded=True,
-      note="bounded: exhaustive n*m<=4 (thorough <=8 bits), random n<=7 m<=13, m in 127..300 (thorough ..33000), "
-           "n up to 130 (thorough 260); seeded")
+      note="bounded: exhaustive genotypes for n*m<=4 (thorough n*m<=6 / 8 allele bits), 260 (thorough 10000) random cases "
+           "n<=7 m<=13, m in 127..300 (thorough ..33000), n up to 130 (thorough 260); seeded")
 def u_ring_vanraden(ctx):
     ctx.rule = _RULE
     _drive(ctx, gen_cases(ctx.rng, ctx.tier, "vanraden"), "vanraden")
 
 
 @unit(P, "ring[Yang matrix vs published formula]", "R", bounded=True,
-      note="bounded: exhaustive n*m<=4 (thorough <=8 bits), random n<=7 m<=13, m in 127..300 (thorough ..33000), "
-           "n up to 130 (thorough 260); reference frequencies strictly inside (0,1); seeded")
+      note="bounded: exhaustive genotypes for n*m<=4 (thorough n*m<=6 / 8 allele bits), 260 (thorough 10000) random cases "
+           "n<=7 m<=13, m in 127..300 (thorough ..33000), n up to 130 (thorough 260); reference frequencies strictly "
+           "inside (0,1); seeded")
 def u_ring_yang(ctx):
     ctx.rule = _RULE
     _drive(ctx, gen_cases(ctx.rng, ctx.tier, "yang"), "yang")
 
 
 @unit(P, "ring[generalized weighted matrix vs formula]", "R", bounded=True,
-      note="bounded: exhaustive n*m<=4 (thorough <=8 bits), random n<=7 m<=13, m in 127..300 (thorough ..33000), "
-           "n up to 130 (thorough 260); weights >= 0 incl. zeros; seeded")
+      note="bounded: exhaustive genotypes for n*m<=4 (thorough n*m<=6 / 8 allele bits), 260 (thorough 10000) random cases "
+           "n<=7 m<=13, m in 127..300 (thorough ..33000), n up to 130 (thorough 260); weights >= 0 incl. zeros; seeded")
 def u_ring_gw(ctx):
     ctx.rule = _RULE
     _drive(ctx, gen_cases(ctx.rng, ctx.tier, "gw"), "gw")
 
 
 @unit(P, "ring[views and summaries on constructed matrices]", "R", bounded=True,
-      note="bounded: 12 fixed corner matrices x 4 concrete classes, 500 (thorough 8000) seeded symmetric matrices n<=8 "
+      note="bounded: 12 fixed corner matrices x 4 concrete classes, 500 (thorough 20000) seeded symmetric matrices n<=8 "
            "(SPD, scaled, singular PSD, small-integer with ties/negatives, diagonal, off-diagonal maximum, slightly asymmetric), n up to 40 (150)")
 def u_ring_direct(ctx):
     ctx.rule = ("coancestry-matrix objects built directly from explicit / seeded symmetric matrices of every concrete "
